@@ -201,8 +201,27 @@ def check_proofs(pid):
 
 
 # ---------------------------------------------------------------- case generation / evaluation
+_ISOLATE = None
+
+
+def isolate_prefix():
+    """Run the harness in a private mount namespace with a fresh tmpfs on its scratch directory
+    /var/tmp/lcv, so that concurrent checks (several properties, several worktrees) cannot wipe
+    each other's worlds.  Falls back to the shared directory where unshare -m is unavailable."""
+    global _ISOLATE
+    if _ISOLATE is None:
+        pre = ['unshare', '-m', '--propagation', 'private', 'sh', '-c',
+               'mkdir -p /var/tmp/lcv && mount -t tmpfs tmpfs /var/tmp/lcv && exec "$@"', 'sh']
+        try:
+            ok = subprocess.run(pre + ['true'], stdout=subprocess.DEVNULL, stderr=subprocess.DEVNULL, timeout=30).returncode == 0
+        except Exception:
+            ok = False
+        _ISOLATE = pre if ok else []
+    return _ISOLATE
+
+
 def run_harness(cfg, action, out, **kw):
-    cmd = [os.path.join(RUN, 'lcv'), cfg['go'], action, '-out', out]
+    cmd = isolate_prefix() + [os.path.join(RUN, 'lcv'), cfg['go'], action, '-out', out]
     for k, v in kw.items():
         cmd += ['-' + k, str(v)]
     rc, o = sh(cmd, timeout=cfg.get('gen_timeout', 1800), env=dict(GOENV, LCV_RUN=RUN, LCV_REPO=REPO),
@@ -427,7 +446,7 @@ def run_property(pid, tier, seed, replay_file=None):
     if cfg.get('referee') and not replay_file:
         nref = cfg.get('referee_quick', 3) if tier == 'quick' else cfg.get('referee_thorough', 40)
         out = os.path.join(d, 'referee.jsonl')
-        rc, o = sh([os.path.join(RUN, 'lcv'), cfg['referee'], 'referee', '-seed', str(seed), '-n', str(nref), '-out', out],
+        rc, o = sh(isolate_prefix() + [os.path.join(RUN, 'lcv'), cfg['referee'], 'referee', '-seed', str(seed), '-n', str(nref), '-out', out],
                    timeout=3000, env=dict(GOENV, LCV_RUN=RUN, LCV_REPO=REPO), limit_mem=True)
         if rc != 0:
             raise Broken('referee run failed:\n' + o[-3000:])
